@@ -125,23 +125,57 @@ func evaluate(h *history, o *outcome) []violation {
 			}
 		}
 	}
+	// (1) a Stop was accepted although no Start of the session had been accepted before it.  The shape is
+	// decided from the record stream, the sends and the per-incarnation crash counts (never from "some crash happened
+	// somewhere in the run"):
+	//   failed       a Start of the session was rejected / lost before the Stop, i.e. it went to the retry queue
+	//   crashBetween a crash lies between the last such failed Start and the Stop (the queue of that incarnation is gone)
+	//   crashAfter   a crash lies after the Stop
+	// Listed shapes on the pinned tree, each kept for exactly its recorded root cause:
+	//   stop-before-start/start-failed-earlier (KF-C08-4): the Stop was accepted while the failed Start was still
+	//     waiting for its retry — the Start is accepted later, or a crash after the Stop took the queue with it.
+	//   stop-without-start/after-crash (KF-C08-5): the failed Start lived in the volatile retry queue, a crash
+	//     between it and the Stop lost it, a restarted instance sent the Stop, no Start is ever accepted.
 	for _, sp := range h.Sess { // deterministic order
 		e, ok := earlyStop[sp.ID]
 		if !ok {
 			continue
 		}
-		if at, ok := firstAckStart[sp.ID]; ok {
-			how := "start-not-attempted"
-			if failedBefore(o, sp.ID, e) {
-				how = "start-failed-earlier"
-			}
-			add("C08/stop-before-start/"+how, "%v was accepted before the session's Start (first accepted at #%d)", e, at)
-		} else {
+		at, hasLater := firstAckStart[sp.ID]
+		// crash counts are those of the sending incarnation (crashes that had happened when it started): a
+		// request that reaches the server between a crash marker firing and the restart still belongs to
+		// the incarnation that sent it
+		failed, cF := lastFailedStart(o, sp.ID, e)
+		cStop := o.crashesAtEpoch(e.Epoch)
+		crashBetween := failed && cStop > cF
+		crashAfter := o.crashes > cStop
+		switch {
+		case hasLater && !failed:
+			add("C08/stop-before-start/start-not-attempted", "%v was accepted before the session's Start (first accepted at #%d); no Start had failed before it", e, at)
+		case hasLater:
+			add("C08/stop-before-start/start-failed-earlier", "%v was accepted before the session's Start (first accepted at #%d), which had failed earlier and was waiting for its retry", e, at)
+		case !failed:
 			how := "no-crash"
 			if o.crashed {
-				how = "after-crash"
+				how = "start-never-attempted"
 			}
-			add("C08/stop-without-start/"+how, "%v was accepted but no Start for %s was ever accepted", e, sp.ID)
+			add("C08/stop-without-start/"+how, "%v was accepted but no Start for %s was ever accepted, nor had one failed before the Stop", e, sp.ID)
+		case crashBetween:
+			how := "after-crash"
+			if sn := snapFor(e.Epoch); sn != nil && sn.PendingAny[planKey(sp.ID, tStart)] && !crashAfter {
+				// the failed Start was in pending.json when the incarnation that sent the Stop started, and no
+				// later crash can have lost it: it was durable and still never delivered
+				how = "durable-start-never-sent"
+			}
+			add("C08/stop-without-start/"+how, "%v was accepted but no Start for %s was ever accepted: the Start had failed (%d crashes before), a crash followed, a restarted instance sent the Stop", e, sp.ID, cF)
+		case crashAfter:
+			add("C08/stop-before-start/start-failed-earlier", "%v was accepted while the session's failed Start was still waiting for its retry; a later crash then lost the queued Start, so none was ever accepted", e)
+		default:
+			how := "no-crash"
+			if o.crashed {
+				how = "queued-start-never-delivered"
+			}
+			add("C08/stop-without-start/"+how, "%v was accepted but no Start for %s was ever accepted although it had failed earlier (queued for retry) and no crash happened after that", e, sp.ID)
 		}
 	}
 	// (3) every started session that was stopped, drained or orphaned has an accepted Stop
@@ -170,20 +204,37 @@ func evaluate(h *history, o *outcome) []violation {
 	return vs
 }
 
-// failedBefore: a Start of the session failed before Stop record `stop` arrived — it was answered "down",
-// or it was lost on the way (latency >= client timeout: the server never saw it).
-func failedBefore(o *outcome, sid string, stop rec) bool {
+// lastFailedStart: did a Start of the session fail before Stop record `stop` arrived — it was answered "down",
+// or it was lost on the way (latency >= client timeout, or the process died while it travelled: the server never
+// saw it) — and how many crashes had happened when the last such attempt was made.
+func lastFailedStart(o *outcome, sid string, stop rec) (found bool, crashes int) {
+	note := func(c int) {
+		if !found || c > crashes {
+			crashes = c
+		}
+		found = true
+	}
 	for _, e := range o.log {
 		if e.Seq < stop.Seq && e.SID == sid && e.Type == tStart && !e.Accepted {
-			return true
+			note(o.crashesAtEpoch(e.Epoch))
 		}
 	}
 	for _, sr := range o.sends {
-		if sr.SID == sid && sr.Site == "start" && sr.Lost && (stop.Send == nil || sr.End <= stop.Send.End) {
-			return true
+		// "*": the tree under test has no crash markers, the sending session is unknown — counted for every
+		// session (errs towards the listed shapes, never towards a new signature)
+		if (sr.SID == sid || sr.SID == "*") && sr.Site == "start" && sr.Lost && (stop.Send == nil || sr.End <= stop.Send.End) {
+			note(o.crashesAtEpoch(sr.Epoch))
 		}
 	}
-	return false
+	return found, crashes
+}
+
+// crashesAtEpoch: how many crashes had happened when incarnation `epoch` of the manager started.
+func (o *outcome) crashesAtEpoch(epoch int) int {
+	if epoch >= 0 && epoch < len(o.epochCrashes) {
+		return o.epochCrashes[epoch]
+	}
+	return o.crashes
 }
 
 func ctrs(st *sessState, in bool) string {
